@@ -1,11 +1,85 @@
-"""Translator validation (check selftest): placeholder until the differential self-test lands."""
-import shutil
+"""Translator validation (check selftest), run by setup_cmd and available at any time:
+ (1) go test of the engine's own unit tests (term simplifier / interval soundness vs brute force, Sprintf and
+     string models vs the real fmt/strings, exact-float layer vs IEEE on random values);
+ (2) executor vs native: the digest of ~450 accessor results, stepping calls and a reverse lookup for seeded random
+     civil date-times must be identical when the real code is interpreted concretely by symgo and when it runs natively;
+ (3) symbolic vs native at sample points: the merged symbolic state of the lunar constructor, constrained to one
+     moment, must imply the natively computed field values (an SMT validity query per sample)."""
+import json, os, random, subprocess, sys, shutil, time
 
 
 def run(verif, repo, goenv, solver):
+    t0 = time.time()
     for s in (solver, "z3", "cvc5"):
         if not shutil.which(s):
             print("selftest: solver missing:", s)
             return 1
-    print("selftest: engine built, solvers present")
-    return 0
+    r = subprocess.run(["go", "test", "-count=1", "./..."], cwd=os.path.join(verif, "engine"), env=goenv, capture_output=True, text=True)
+    if r.returncode != 0:
+        print("selftest: engine unit tests FAILED\n", r.stdout[-3000:], r.stderr[-2000:])
+        return 1
+    seed = int(os.environ.get("VERIF_SEED", "1"))
+    rnd = random.Random(seed)
+    n = int(os.environ.get("VERIF_SELFTEST_N", "40"))
+    dates = [(1, 1, 1, 0, 0, 0), (9998, 12, 31, 23, 59, 59), (1582, 10, 4, 23, 0, 0), (1582, 10, 15, 0, 0, 0), (15, 12, 30, 12, 0, 0),
+             (2020, 2, 4, 17, 3, 12), (2033, 12, 22, 23, 30, 0), (239, 12, 13, 1, 2, 3), (2024, 2, 29, 22, 59, 59), (1900, 1, 31, 11, 0, 0)]
+    while len(dates) < n:
+        y, m = rnd.randint(1, 9998), rnd.randint(1, 12)
+        d = rnd.randint(1, 28)
+        if y == 1582 and m == 10 and 4 < d < 15:
+            continue
+        dates.append((y, m, d, rnd.choice([0, 1, 11, 12, 22, 23, rnd.randint(0, 23)]), rnd.randint(0, 59), rnd.randint(0, 59)))
+    sys.path.insert(0, os.path.join(verif, "bin"))
+    import importlib.machinery, importlib.util
+    loader = importlib.machinery.SourceFileLoader("check", os.path.join(verif, "bin", "check"))
+    spec = importlib.util.spec_from_loader("check", loader)
+    chk = importlib.util.module_from_spec(spec)
+    loader.exec_module(chk)
+    work = chk.WORK
+    os.makedirs(work, exist_ok=True)
+    tf = os.path.join(work, "zz_vh_selftest_test.go")
+    with open(tf, "w") as f:
+        f.write("package calendar\n\nimport \"testing\"\n\nfunc TestVHDigest(t *testing.T) {\n")
+        for i, (y, m, d, h, mi, s) in enumerate(dates):
+            sect, g = 1 + i % 2, (i // 2) % 2
+            f.write(f"\tt.Logf(\"VHDIGEST {i} %d %d %d\", vhDigestDate({y}, {m}, {d}, {h}, {mi}, {s}, {sect}, {g}), "
+                    f"vhDigestSmall(NewSolar({y}, {m}, {d}, {h}, {mi}, {s}).GetLunar()), vhStrDigest(NewSolar({y}, {m}, {d}, {h}, {mi}, {s}).GetLunar()))\n")
+        f.write("}\n")
+    ov = os.path.join(work, "overlay_selftest.json")
+    json.dump({"Replace": chk.overlay_files({os.path.join(repo, "calendar", "zz_vh_selftest_test.go"): tf})}, open(ov, "w"))
+    r = subprocess.run(["go", "test", "-vet=off", "-count=1", "-v", "-overlay", ov, "-run", "TestVHDigest", "./calendar"], cwd=repo, env=goenv, capture_output=True, text=True)
+    exp = {}
+    for l in (r.stdout + r.stderr).splitlines():
+        if "VHDIGEST" in l:
+            p = l[l.index("VHDIGEST"):].split()
+            exp[int(p[1])] = (int(p[2]), int(p[3]), int(p[4]))
+    if len(exp) != len(dates):
+        print("selftest: native digest run failed\n", (r.stdout + r.stderr)[-3000:])
+        return 1
+    units = []
+    for i, (y, m, d, h, mi, s) in enumerate(dates):
+        sect, g = 1 + i % 2, (i // 2) % 2
+        units.append(dict(id=f"ST1[{y}-{m}-{d} {h}:{mi}:{s}]", harness="calendar.VH_ST_Concrete", timeout_ms=300000,
+                          params={"Y": y, "M": m, "D": d, "H": h, "MI": mi, "S": s, "SECT": sect, "GENDER": g, "EXPECT": exp[i][0]}))
+        if i % 2 == 0:
+            units.append(dict(id=f"ST2[{y}-{m}-{d} {h}:{mi}:{s}]", harness="calendar.VH_ST_Symbolic", timeout_ms=300000, concrete={"v_m": m},
+                              params={"Y": y, "D": d, "H": h, "MI": mi, "S": s, "EXPECT": exp[i][1], "EXPECT2": exp[i][2]}))
+    data, sd = chk.run_engine(units, "selftest", "quick", seed, 20000)
+    shutil.rmtree(sd, ignore_errors=True)
+    if data is None:
+        print("selftest: engine failed")
+        return 1
+    bad = 0
+    nob = 0
+    for u in data["results"]:
+        probs = u.get("problems") or []
+        obls = u.get("obligations") or []
+        nob += len(obls)
+        ok = not probs and obls and all(o["result"] in ("unsat", "trivial") for o in obls) and u.get("reached")
+        if not ok:
+            bad += 1
+            print("selftest: MISMATCH", u["id"], probs[:2], [(o["id"], o["result"]) for o in obls if o["result"] not in ("unsat", "trivial")])
+    summary = {"engine_unit_tests": "ok", "dates": len(dates), "units": len(units), "obligations": nob, "mismatches": bad, "wall_s": round(time.time() - t0, 1), "seed": seed}
+    json.dump(summary, open(os.path.join(verif, ".work", "selftest.json") if os.path.isdir(os.path.join(verif, ".work")) else os.path.join(work, "selftest.json"), "w"))
+    print("selftest:", json.dumps(summary))
+    return 1 if bad else 0
